@@ -12,8 +12,8 @@ import (
 	"strings"
 )
 
-// The packages that are translated.  ff and ffg are library packages here.
-var repoPkgs = []string{"constants", "utils", "keccak256", "poseidon", "goldenposeidon", "mimc7", "babyjub"}
+// The packages that are translated (all Go packages of the repo).
+var repoPkgs = []string{"ff", "ffg", "constants", "utils", "keccak256", "poseidon", "goldenposeidon", "mimc7", "babyjub"}
 
 // defaultBuild evaluates a //go:build expression under the default tag set.
 func defaultBuild(f *ast.File) bool {
